@@ -225,6 +225,10 @@ static int print_f(void (*printchar_handler)(void *d, int c),
     int pc, i, ch, len, prefix_len, postfix_len, pad_count, sign_count,
         zero_left, letter_base;
 
+    /* the engine works in DOUBLE: a long double argument beyond the range of
+       DOUBLE must be an infinity for the test below too */
+    r = (DOUBLE)r;
+
     /* infinities and NaN have no digits: [sign]inf / [sign]nan, blank padded */
     if (isnan(r) || isinf(r))
     {
